@@ -22,7 +22,7 @@ import vlib  # noqa: E402
 import _repobins  # noqa: E402
 
 FILES = {"a": "a.lua", "b": "b.lua", "c": os.path.join("sub", "c.lua"), "l": os.path.join("lib", "l.lua")}
-ORDER = ["CF", "CB", "EN", "AL", "LC", "GA", "GT", "LG"]
+ORDER = ["CF", "CB", "EN", "AL", "LC", "PH", "PE", "PA", "GA", "GT", "LG"]
 
 
 def snippet(s, f):
@@ -35,6 +35,10 @@ def snippet(s, f):
         "GA": "GlobA = 1\n",
         "GT": "GlobT = { k = 1 }\n",
         "LG": "LibGlob = 1\n",
+        # file-scoped types: each declaring file has a type of its own with this name
+        "PH": "---@class (private) Helper\n---@field hlp_%s integer\n" % f,
+        "PE": "---@enum (private) Mode\nlocal Mode_%s = { On = 1, Off = 2 }\n" % f,
+        "PA": "---@alias (private) Key string\n",
     }[s]
 
 
@@ -118,6 +122,9 @@ def judge(case, runs):
                     continue
                 if e[name] == 0:
                     kind = "%s/library-leak" % k if nm in libonly else "%s/not-declared-in-main" % k
+                elif k == "types" and list(name) in case.get("samenamed", []) and g[name] < e[name]:
+                    # same-named file-scoped types of different files are different declared types
+                    kind = "types/missing/same-named-file-scoped/%s" % name[0]
                 elif g[name] == 0:
                     kind = "%s/missing" % k
                     if k == "types" and list(name) in case["shared"]:
@@ -208,6 +215,37 @@ def run(ctx):
             have.add(k)
             chosen.append(c)
     ctx.note("workspaces_with_type_shared_with_library", sum(1 for c in chosen if c["shared"]))
+    # (second seeded round) file-scoped types: `(private)` classes / enums / aliases with the same name in several files
+    bn = vlib.tlc("DocExport", "DocExport_byname", workers=2, timeout=600)
+    if bn.violated != "KeyedByNameLosesNothing":
+        raise vlib.ToolError("vacuity guard: the alphabet should contain two main-workspace types with the same name "
+                             "(file-scoped), got %r" % bn.violated)
+    ctx.note("model_exporter_keyed_by_name", "KeyedByNameLosesNothing violated (as it must be)")
+    pres = vlib.tlc("DocExport", "DocExport_priv", workers=ctx.pick(2, 4), timeout=600)
+    ctx.add_tlc(pres)
+    if pres.violated:
+        raise vlib.ToolError("DocExport (file-scoped types) enumeration: %s" % pres.violated)
+    pcases = sorted((c for tag, c in pres.json if tag == "CASE"), key=lambda c: json.dumps(c, sort_keys=True))
+    ctx.note("workspaces_enumerated_file_scoped", len(pcases))
+    padd = []
+    for kind in ("class", "enum", "alias"):
+        pool = [c for c in pcases if any(t[0] == kind for t in c["samenamed"])]
+        if not pool:
+            raise vlib.ToolError("DocExport_priv has no same-named file-scoped %s in two main files" % kind)
+        lone = [c for c in pool if len(c["samenamed"]) == 1 and len(c["types"]) == 2]
+        padd.append(lone[rnd.randrange(len(lone))] if lone else pool[0])
+        for _ in range(ctx.pick(1, 5)):
+            padd.append(pool[rnd.randrange(len(pool))])
+    # a file-scoped type of a main file next to a same-named one of the library root (only the main one is listed)
+    pool = [c for c in pcases if not c["samenamed"] and "Helper" in c["libonly"] and ["class", "Helper"] in c["types"]]
+    if pool:
+        padd.append(pool[rnd.randrange(len(pool))])
+    for c in padd:
+        k = json.dumps(c["ws"], sort_keys=True)
+        if k not in have:
+            have.add(k)
+            chosen.append(c)
+    ctx.note("workspaces_with_same_named_file_scoped_types", sum(1 for c in chosen if c.get("samenamed")))
     runs_per_ws = ctx.pick(4, 8)
     # ---- 3. replay ------------------------------------------------------------------------------------------
     binary = _repobins.build(["emmylua_doc_cli"])["emmylua_doc_cli"]
@@ -245,6 +283,8 @@ def run(ctx):
              "by TLC with the expected type/global/module name sets; a seeded sample stratified over (split class, "
              "multi-file global, library-only names, >= 3 types, >= 2 globals, type shared with the library root) plus, "
              "for each kind class/enum/alias, workspaces that declare the type in the library root AND in a main file "
+             "and workspaces in which two or three main files each declare a file-scoped `(private)` class / enum / alias "
+             "of the same name (each is a declared type of its own: one entry per declaring file) "
              "is exported K times in fresh processes; "
              "evaluation = one export run; non-trivial = workspace with >= 3 exported types+globals (>= 6 orders)")
     ctx.assume("a global assigned in several main files, a class split over several files and an alias declared twice are "
